@@ -643,7 +643,15 @@ func (x *Exec) evalQuant(env *SpecEnv, e EQuant) Val {
 		}
 	}
 	x.inQuant++
-	defer func() { x.inQuant-- }()
+	defer func() {
+		x.inQuant--
+		if x.inQuant == 0 && len(x.pendingAxioms) > 0 {
+			for _, a := range x.pendingAxioms {
+				x.emit(a)
+			}
+			x.pendingAxioms = nil
+		}
+	}()
 	type bv struct {
 		p    Param
 		t    types.Type
